@@ -36,6 +36,16 @@ func transformReqs(
 
 	newReqs := make(map[string]project.RequirementConfig)
 
+	// A path can occur more than once in newVersions: the old project may name one project under several names with
+	// different versions, and the build list takes the highest of them. Every name of the path gets that version,
+	// whatever the order of the entries.
+	highest := make(map[string]string)
+	for _, v := range newVersions {
+		if cur, ok := highest[v.Path]; !ok || semver.Compare(cur, v.Version) < 0 {
+			highest[v.Path] = v.Version
+		}
+	}
+
 	// First add requirements that existed in the old project.
 	for _, v := range newVersions {
 		if v.Path == "" {
@@ -45,6 +55,7 @@ func transformReqs(
 		if !ok {
 			continue
 		}
+		v.Version = highest[v.Path]
 		for _, n := range names {
 			newReqs[n] = versionRequirement(v)
 		}
